@@ -66,6 +66,12 @@ class VUnit:
                     raise rustscan.LostAnchor(f'{ex["id"]}: anchor `{ins["anchor"]}` for ghost insertion not found')
                 k = body.find('\n', k)
                 body = body[:k + 1] + ins['text'].rstrip() + '\n' + body[k + 1:]
+            for ins in ex.get('insert_before', []):
+                k = body.rfind(ins['anchor']) if ins.get('last', True) else body.find(ins['anchor'])
+                if k < 0:
+                    raise rustscan.LostAnchor(f'{ex["id"]}: anchor `{ins["anchor"]}` for ghost insertion not found')
+                k = body.rfind('\n', 0, k)
+                body = body[:k + 1] + ins['text'].rstrip() + '\n' + body[k + 1:]
             fn_text = ex['new_sig'].rstrip() + '\n' + ex.get('contract', '').rstrip() + '\n' + body
             marker = f'/*@FN {ex["id"]}*/'
             if marker not in text:
